@@ -44,7 +44,17 @@ RULE_E2E = (" End-to-end clause (harness/cmd/vh/c13e2e.go): the REAL methods of 
             "the function itself, a constructor placed inside the arguments of the method with the shortest chain to it, a constructor "
             "placed inside the answer. Expected from the schema by a group-aware writer (c13groups_build.go): a set bit announces every "
             "member, a zero-valued one is sent as its zero; a nil object inside a present group has no serialisation - the call must "
-            "return an error and send nothing. The Lean driver derives ok / refused from the regenerated schema table.")
+            "return an error and send nothing. The Lean driver derives ok / refused from the regenerated schema table. Optional vectors and bytes "
+            "(harness/cmd/vh/c13opt.go, c13.e2e.opt): for EVERY conditional Vector<..> / bytes parameter of the schema (45 + 8) - of a "
+            "function, of a constructor placed inside the arguments of a method (shortest chain, and the shortest chain through a "
+            "Vector<constructor>), of a constructor placed inside an answer - calls in which that parameter is the Go value nil (the "
+            "schema's 'absent': bit clear, nothing written), a non-nil slice of length 0 with capacity 0 / 8 (the schema's 'present, no "
+            "elements': bit set, 1cb5c415 00000000 resp. a zero-length bytes field written) or has one element, with the other conditional "
+            "parameters of the definition absent / all present / drawn per flag bit. Expected bytes from the schema line by the group-aware "
+            "writer (nil = absent, non-nil = present); the generator checks that the expected requests for nil / empty / one element are "
+            "three different byte strings. In the answer direction the value returned must serialise, under the same reading, to the "
+            "payload sent (a present empty vector comes back non-nil, an absent one nil). Conditional strings: Go has one empty string, the "
+            "layer cannot express 'present, empty' for a string alone on its bit - outside these operations.")
 
 RULE = ("programs = rows of the regenerated tables: every definition of schemes/api_latest.tl and schemes/mtproto.tl "
         "(translator validated by printing each back to its source line; id = CRC-32 of the canonical line; parameter "
